@@ -455,7 +455,7 @@ class Configuration:
                     if ":" in key:
                         continue
                     meta = {
-                        k.partition(":")[-1]: v if v is None else v.replace("\n", " ")
+                        k.partition(":")[-1]: v if v is None else v.replace("\n", " ").strip()
                         for k, v in cfg_parser[cfg_section].items()
                         if k.startswith(f"{key}:")
                     }
@@ -464,7 +464,7 @@ class Configuration:
                     self.update(
                         section,
                         _replace(key, replace_vars),
-                        value if value is None else _replace(value, replace_vars).replace("\n", " "),
+                        value if value is None else _replace(value, replace_vars).replace("\n", " ").strip(),
                         profile=profile if has_profile else None,
                         source=str(file_path),
                         meta=meta,
